@@ -37,6 +37,13 @@ PINNED = [
     "[\\--a]", "[+--]", "[a-a]", "[z-a]", "[ab-c-]", "[\\]]", "[[]", "x{1}{", "^?", "${2}",
 ]
 
+#: Pinned inputs with f-string splices (``None`` marks the splice).
+PINNED_PIECES = [
+    ["^", None, "$"], [None, "*?"], [None, None], ["a", None, "{2}b"], ["(", None, "|b)+"],
+    ["[", None, "]"], ["[a-", None, "]"], ["[^", None], ["a{", None, "}"], ["\\", None],
+    ["\\x4", None], ["(?", None, ")"], ["a|", None], [None], ["x", None, "[", "]"],
+]
+
 
 def _formatted_value(name: str, cache: Dict[str, Any]) -> Any:
     """A real ``parse.tree.FormattedValue`` made the way the front end makes them."""
@@ -148,6 +155,14 @@ class Monitor:
 
     def run(self, pieces: Sequence[Any], origin: str, rng: Any) -> None:
         chk, retree = self.chk, self.retree
+        # an f-string never yields two adjacent string pieces (precondition of Cursor)
+        merged: List[Any] = []
+        for p in pieces:
+            if isinstance(p, str) and merged and isinstance(merged[-1], str):
+                merged[-1] += p
+            else:
+                merged.append(p)
+        pieces = merged
         values = to_values(pieces, self.fv_cache)
         text = rg.join_pieces(pieces)
         has_splice = any(not isinstance(p, str) for p in pieces)
@@ -295,7 +310,11 @@ class Monitor:
         if found is not None:
             diff = rg.sre_diff(t_orig, t_rend) or "python-trees-equal"
             diff = diff.replace("MAX_REPEAT", "REPEAT").replace("MIN_REPEAT", "REPEAT")
-            if diff.endswith("~REPEAT") and not diff.endswith("REPEAT~REPEAT"):
+            hint = rg.braces_hint(text)
+            if hint != "no-braces" and rg.sre_tree(rg.normalise_braces(text)) == t_rend:
+                # the two readings differ *only* in ``{...}`` that Python takes as text
+                diff = "braces-read-as-quantifier/" + hint
+            elif diff.endswith("~REPEAT") and not diff.endswith("REPEAT~REPEAT"):
                 # Python read ``{...}`` of the original as text, the rendering repeats
                 diff = "braces-read-as-quantifier/" + rg.braces_hint(text)
             if empty_set:
@@ -312,7 +331,12 @@ class Monitor:
             )
         elif trees_differ:
             chk.count("python_trees_differ_without_witness")
-            chk.hist("python_trees_differ_without_witness", rg.sre_diff(t_orig, t_rend))
+            diff = rg.sre_diff(t_orig, t_rend)
+            chk.hist("python_trees_differ_without_witness", diff)
+            chk.hist(
+                "python_trees_differ_without_witness_examples",
+                f"{diff}: {ascii(text)[:70]} -> {ascii(r_text)[:70]}",
+            )
 
     def check_error(self, error: Any, values: List[Any], witness: Dict[str, Any]) -> None:
         chk, retree = self.chk, self.retree
@@ -382,7 +406,14 @@ def _worker(job: Tuple[int, int, List[str], float, int, int, float]) -> Dict[str
                 break
         mode = rng.choice(modes)
         if mode == "splices":
-            pieces: List[Any] = rg.gen_pieces(rng, "subset")
+            if rng.random() < 0.75:
+                pieces: List[Any] = rg.gen_pieces(rng, "subset")
+            else:
+                # a splice at an arbitrary cut of a pattern text (inside sets, braces,
+                # escapes, ...)
+                text = rg.gen_pattern(rng, rng.choice(["subset", "nearmiss"]), seeds=seeds)
+                cut = rng.randint(0, len(text))
+                pieces = [p for p in (text[:cut], rg.Splice("y"), text[cut:]) if p != ""]
         elif mode == "corpus":
             pieces = rng.choice(corpus) if corpus else ["a"]
         else:
@@ -421,15 +452,21 @@ def main(argv: Sequence[str]) -> int:
 
     for text in PINNED:
         mon.run([text], "pinned", rng)
+    for shown in PINNED_PIECES:
+        mon.run(
+            [rg.Splice("p%d" % k) if p is None else p for k, p in enumerate(shown)],
+            "pinned",
+            rng,
+        )
     corpus = corpus_pieces()
     chk.extra["corpus_patterns"] = len(corpus)
     for pieces in corpus:
         mon.run(pieces, "corpus", rng)
 
     workers = max(1, min(8, (os.cpu_count() or 2) // 2))
-    shards = workers * (1 if chk.tier == "quick" else 4)
+    shards = workers  # all shards run side by side until the wall budget ends them
     per = (total + shards - 1) // shards
-    need = chk.pick(1500, 20000)
+    need = chk.pick(1000, 12000)
     at_least = (need + shards - 1) // shards
     hard_deadline = chk.t0 + 2 * budget
     jobs = [(k, per, argv, deadline, n_strings, at_least, hard_deadline) for k in range(shards)]
@@ -442,14 +479,14 @@ def main(argv: Sequence[str]) -> int:
         chk.harness_error(f"a worker process died: {err!r}")
 
     chk.require_min("monitor_parse_calls", need)
-    chk.require_min("accepted", 400)
-    chk.require_min("rejected_with_error", 300)
-    chk.require_min("error_positions_inside_input", 300)
-    chk.require_min("roundtrip_checked", 400)
-    chk.require_min("semantic_compared", 300)
-    chk.require_min("strings_compared", 10000)
-    chk.require_min("patterns_with_members_and_non_members", 200)
-    chk.require_min("accepted_with_splices", 20)
+    chk.require_min("accepted", 300)
+    chk.require_min("rejected_with_error", 150)
+    chk.require_min("error_positions_inside_input", 150)
+    chk.require_min("roundtrip_checked", 300)
+    chk.require_min("semantic_compared", 250)
+    chk.require_min("strings_compared", 8000)
+    chk.require_min("patterns_with_members_and_non_members", 150)
+    chk.require_min("accepted_with_splices", 15)
     chk.assume(
         "Python's re (3.12) is the reference for validity and for the language of a "
         "pattern; a splice {x} stands for the fragment " + rg.SPLICE_FRAGMENT + " on both sides"
